@@ -279,11 +279,11 @@ func run(idx bleve.Index, req *bleve.SearchRequest) (rv *rendered, problem strin
 
 // want holds the single-index answers for one (query, sort).
 type want struct {
-	listing *rendered       // From=0, Size=all
-	pages   [][]*rendered   // [from][sizeIdx]
-	after   [][]*rendered   // [hit][afterSizeIdx]
-	before  [][]*rendered   // [hit][afterSizeIdx]
-	afterP  [][]string      // problems (single index rejected the request)
+	listing *rendered     // From=0, Size=all
+	pages   [][]*rendered // [from][sizeIdx]
+	after   [][]*rendered // [hit][afterSizeIdx]
+	before  [][]*rendered // [hit][afterSizeIdx]
+	afterP  [][]string    // problems (single index rejected the request)
 	beforeP [][]string
 }
 
